@@ -1,7 +1,7 @@
 SPECIFICATION Spec
 CONSTANTS
   MaxParams = 6
-  PoolSize = 16
+  PoolSize = 19
 INVARIANTS RegsOk
 VIEW View
 CHECK_DEADLOCK FALSE
